@@ -24,7 +24,7 @@ func init() {
 		ID:    "C12",
 		Level: "exploration",
 		Rule: "case = one concurrent history: 2-32 client goroutines call SamehadaDB.ExecuteSQL only (the engine's request manager retries internally aborted statements), background checkpoint/statistics activity forced from extra goroutines, GOMAXPROCS in {2,4,16}. " +
-			"Linearizability workload: 4 banks (tables) of 12 rows (id, g1 = id%3, g2 = id%4, val); operations = group reads (SELECT id, val WHERE g1 = x / g2 = x / id = x) and multi-row writes (UPDATE .. SET val = <unique token> WHERE g1 = x / g2 = x), equal-length tokens or growing tokens (relocation); " +
+			"Linearizability workload: 4 banks (tables) of 12 rows (id, g1 = id%3, g2 = id%4, val); operations = group reads (SELECT id, val WHERE g1 = x / g2 = x / id = x) and multi-row writes (UPDATE .. SET val = <unique token> WHERE g1 = x / g2 = x), tokens of exactly the initial value's length (every update in place) or growing tokens (relocation); " +
 			"oracle 1 = porcupine against a per-bank model [12]string with atomic group writes (timeout = inconclusive); oracle 2 = every read returns exactly the ids of its group, each once, DML returns (nil, nil). " +
 			"Exactly-once workload: INSERT of unique ids and DELETE by id from many clients; at quiescence every acknowledged insert that was not deleted is present exactly once and every acknowledged delete is absent. " +
 			"Oracle 4 (no call blocks forever, restated): when a call has not returned 20 s after all other clients finished, two goroutine dumps 2 s apart must differ or show a running goroutine, otherwise it is a deadlock. " +
@@ -209,7 +209,7 @@ func c12Run(env *core.Env, idx int) *core.CaseResult {
 					// inserts of unique ids, deletes of own earlier ids, group updates
 					if len(mine) == 0 || lr.Intn(3) != 0 {
 						id := int32(1000 + c*1000 + n)
-						sql := fmt.Sprintf("INSERT INTO acct0(id, g1, g2, val) VALUES (%d, %d, %d, 'c%02dn%03d');", id, id%3, id%4, c, n)
+						sql := fmt.Sprintf("INSERT INTO acct0(id, g1, g2, val) VALUES (%d, %d, %d, 'c%02dn%04d');", id, id%3, id%4, c, n)
 						err, out := db.S.ExecuteSQL(sql)
 						if err != nil || len(out) != 0 {
 							fail(fmt.Sprintf("%s returned (%v, %v)", sql, err, out))
@@ -247,7 +247,7 @@ func c12Run(env *core.Env, idx int) *core.CaseResult {
 				in.Write = in.Grp != "id" && lr.Intn(2) == 0
 				var sql string
 				if in.Write {
-					in.Tok = fmt.Sprintf("c%02dn%03d", c, n)
+					in.Tok = fmt.Sprintf("c%02dn%04d", c, n)
 					if growing {
 						in.Tok += strings.Repeat("g", lr.Intn(40))
 					}
